@@ -12,6 +12,15 @@ def handle (j : Json) : M Json := do
   let op ← (← j.getObjVal? "op").getStr?
   match op with
   | "ewd" => opEwd j
+  | "lin_equiv" => opLinEquiv j
+  | "api" => opApi j
+  | "dhar" => opDhar j
+  | "rank" => opRank j
+  | "gonality" => opGonality j
+  | "play" => opPlay j
+  | "dhar_strategy" => opDharStrategy j
+  | "enhanced_dhar" => opEnhancedDhar j
+  | "greedy" => opGreedy j
   | "graph_hist" => opGraphHist j
   | "div_hist" => opDivHist j
   | "div_arith" => opDivArith j
